@@ -245,8 +245,11 @@ def build(root, case):
 
 
 def run_case(case):
-    if case.get("readonly") and os.geteuid() != 0:
-        case = dict(case, readonly=False)   # the harness itself is an ordinary user: it cannot hand the project to another one
+    from ..isolate import source_usable_without_privileges
+    if case.get("readonly") and (os.geteuid() != 0 or not source_usable_without_privileges()):
+        # the harness itself is an ordinary user (it cannot hand the project to another one), or the tree under test lies
+        # in a private directory
+        case = dict(case, readonly=False)
     root = projgen.new_scratch("c13")
     try:
         expected, rows, labels = build(root, case)
